@@ -24,7 +24,7 @@ from . import sym, prelude, vocab
 from .sym import zint, zbool, HObj, ZList, HDict
 from .interp import Ctx, Interp, AstFunc, Unsupported, PathAbort, PyRaise, PyExcVal, Env
 from .heap import snapshot, same_value
-from .apply import Old, call_contract_fn
+from .apply import Old, call_contract_fn, all_clauses
 from .state import Mk
 
 QUICK_TIMEOUT_MS = 20000
@@ -67,7 +67,12 @@ def build_cases(reg, contract, fnode):
     params = [a.arg for a in fnode.args.posonlyargs + fnode.args.args + fnode.args.kwonlyargs]
     if fnode.args.vararg:
         params.append(fnode.args.vararg.arg)
-    decl = contract.params or {}
+    decl = contract.params
+    par = contract
+    while decl is None and par is not None and par.extends:
+        par = reg.get(par.extends)
+        decl = par.params if par is not None else None
+    decl = decl or {}
 
     def default_builder(ip, overrides=None):
         mk = Mk(ip)
@@ -103,8 +108,7 @@ def run_path(src, reg, contract, fnode, fglobs, case_builder, prefix, opts):
     status = 'ok'
     try:
         params = case_builder(ip)
-        pre = call_contract_fn(ip, contract, 'requires', params)
-        for label, cond in ip.clauses(pre):
+        for label, cond in all_clauses(ip, contract, 'requires', params):
             ctx.assume(cond)
         ctx.ghost['requires_done'] = len(ctx.pc)
         if not ctx.feasible():
@@ -138,11 +142,11 @@ def run_path(src, reg, contract, fnode, fglobs, case_builder, prefix, opts):
                 ip.frames = saved_frames
             _compare(ip, contract, params, init_copy, outcome, soutcome)
         # ---- ensures
-        post = call_contract_fn(ip, contract, 'ensures', params,
-                                {'old': old, 'result': outcome[1] if outcome[0] == 'return' else None,
-                                 'raised': outcome[1] if outcome[0] == 'raise' else None})
-        for label, cond in ip.clauses(post):
-            ctx.oblige(f'{key}/post/{label}', cond, 'post')
+        post = all_clauses(ip, contract, 'ensures', params,
+                           {'old': old, 'result': outcome[1] if outcome[0] == 'return' else None,
+                            'raised': outcome[1] if outcome[0] == 'raise' else None})
+        for label, cond in post:
+            ctx.oblige(f'{key}/post/{label.lstrip("!")}', cond, 'post')
         # ---- frame
         if contract.modifies is not None:
             _frame(ip, contract, params, old)
@@ -180,6 +184,8 @@ def _compare(ip, contract, params, sparams, outcome, soutcome):
         if soutcome[1] is not vocab.AnyError and outcome[1] is not soutcome[1]:
             ctx.oblige(f'{key}/refine/exception-class', False, 'refine',
                        info={'body': _oc(outcome), 'spec': _oc(soutcome)})
+        # the state after a failed call is constrained by `ensures` (invariants, frames) only
+        return
     else:
         out = []
         same_value(ip, outcome[1], soutcome[1], 'result', out)
